@@ -251,3 +251,31 @@ Proof.
   - intros p q1 q2 a b r.
     cbv [ex_kpot plc padd pscale psub pdot px py pz dpos dmom fst snd fmul fadd fsub fdiv ROps pnorm2]; unfold Rdiv; ring.
 Qed.
+
+(* ---------------- the premise checked for the code's kernels (transcribed in Geom/Kernels.v by C16) ----------------
+   code_kder = analyticDipPotDer(dipole,T).f, code_kpot = Dipole::potential: both linear in the moment, so the two column
+   theorems hold for them without any kernel premise left (their correspondence with the C++ is C16's tie). *)
+From OM Require Geom.SourcesKernels.
+Theorem code_kernels_linear : kernels_linear SourcesKernels.code_kder SourcesKernels.code_kpot.
+Proof. exact SourcesKernels.code_kernels_linear. Qed.
+Print Assumptions code_kernels_linear.
+
+Theorem dsm_linear_in_moment_code : forall contains K rule tol geo named p q1 q2 a b c1 c2,
+  dsm_colk contains K rule tol SourcesKernels.code_kder SourcesKernels.code_kpot 0 geo named (p, q1) = Some c1 ->
+  dsm_colk contains K rule tol SourcesKernels.code_kder SourcesKernels.code_kpot 0 geo named (p, q2) = Some c2 ->
+  dsm_colk contains K rule tol SourcesKernels.code_kder SourcesKernels.code_kpot 0 geo named (p, plc a b q1 q2) = Some (lc a b c1 c2).
+Proof. exact SourcesKernels.dsm_linear_in_moment_code. Qed.
+Print Assumptions dsm_linear_in_moment_code.
+
+Theorem dsm_homogeneous_in_moment_code : forall contains K rule tol depth geo named p q a c,
+  dsm_colk contains K rule tol SourcesKernels.code_kder SourcesKernels.code_kpot depth geo named (p, q) = Some c ->
+  dsm_colk contains K rule tol SourcesKernels.code_kder SourcesKernels.code_kpot depth geo named (p, pscale ROps a q) = Some (map (Rmult a) c).
+Proof. exact SourcesKernels.dsm_homogeneous_in_moment_code. Qed.
+Print Assumptions dsm_homogeneous_in_moment_code.
+
+Theorem ds2ip_linear_code : forall contains K geo named pts p q1 q2 a b M1 M2,
+  DS2IP ROps contains K SourcesKernels.code_kpot geo named pts [(p, q1)] = Some M1 ->
+  DS2IP ROps contains K SourcesKernels.code_kpot geo named pts [(p, q2)] = Some M2 ->
+  DS2IP ROps contains K SourcesKernels.code_kpot geo named pts [(p, plc a b q1 q2)] = Some (lcM a b M1 M2).
+Proof. exact SourcesKernels.ds2ip_linear_code. Qed.
+Print Assumptions ds2ip_linear_code.
